@@ -17,7 +17,7 @@ A_CFG = ['decoder configuration fully symbolic: every boolean switch any int, ev
 
 # known deviations of the unchanged tree from the documented semantics; each macro carves out exactly one
 # case in spec/path_ref.h (reference mirrors the code when defined).  Remove one to see the violation.
-KNOWN_F = {'KNOWN_F_C12_RAW_NUL': 1, 'KNOWN_F_C12_U_NUL_NOTERM': 1, 'KNOWN_F_C12_HALFFULL_FFF0': 1,
+KNOWN_F = {'KNOWN_F_C12_U_NUL_NOTERM': 1, 'KNOWN_F_C12_HALFFULL_FFF0': 1,
            'KNOWN_F_C12_UTF8_TRUNCATED_TAIL': 1}
 A_SYMMAP = ['best-fit map SYMBOLIC: any map of at most MAPK triples plus terminator (any bytes, so it can map to NUL, separators, percent); '
             'the real 391-triple bestfit_1252 is covered per call by the lemma unit c12_u_decode_realmap']
